@@ -1,20 +1,20 @@
-(* C09 for the classes of the `adele` extension (all but AdeleOrderComponent, see SpecAdeleOrder.v):
+(* C09 for the classes of the `adele` extension (every class; AdeleOrderComponent joined after the repair
+   4d5f5f0, its entity-level lemmas are in SpecAdeleOrder.v):
    elapsing a then b = elapsing a+b: the damage events of the two runs are a permutation of each other,
    the final states agree up to the dead interval counter of an expired Periodic, hence the views agree;
    well-formedness is preserved by every reducer. *)
 From Coq Require Import ZArith List Bool Lia Permutation.
 From V.Model Require Import Comp SpecAdele.
 From V.Proofs Require EPeriodicP EConsumableP EKeydownP.
-From V.Proofs Require Import CompChunk SpecAdelePG SpecAdeleReject.
+From V.Proofs Require Import CompChunk SpecAdelePG SpecAdeleReject SpecAdeleOrder.
 Import ListNotations.
 Open Scope Z_scope.
 
 Arguments PG.resolving : simpl never.
 
 Definition xnorm (s : xst) : xst := setu s (unorm (x_u s)).
-Definition wf_x (p : xpar) (s : xst) : Prop := wf_ust (x_u s) /\ PG.wf (x_pg s) /\ 0 <= xp_sper p.
-
-Definition xchunk_proved (c : xcomp) : bool := match c with Order => false | _ => true end.
+(* entities well-formed; the two parameter conditions: stack_per_period >= 0 and OrderSword.interval > 0 *)
+Definition wf_x (p : xpar) (s : xst) : Prop := wf_ust (x_u s) /\ PG.wf (x_pg s) /\ 0 <= xp_sper p /\ 0 < xp_swi p.
 
 Lemma xst_ext (x y : xst) :
   x_u x = x_u y -> x_pg x = x_pg y -> x_gauge x = x_gauge y -> x_rl x = x_rl y -> x_rlad x = x_rlad y -> x_sw x = x_sw y -> x = y.
@@ -83,7 +83,7 @@ Lemma chunk_ether p a b s s1 e1 s2 e2 s3 e3 :
   xreduce_spec Ether XElapse p (a + b) s = Some (s3, e3) ->
   xnorm s2 = xnorm s3 /\ dealts (e1 ++ e2) = dealts e3.
 Proof.
-  intros ((W & _) & _ & Hk) Ha Hb H1 H2 H3. cbn [xreduce_spec xreduce] in H1, H2, H3.
+  intros ((W & _) & _ & Hk & _) Ha Hb H1 H2 H3. cbn [xreduce_spec xreduce] in H1, H2, H3.
   injection H1 as <- <-. xsimpl. cbn [x_u setu setgauge gauge_inc u_p1 set_p1 x_gauge] in H2.
   injection H2 as <- <-; injection H3 as <- <-.
   destruct (periodic_chunk (u_p1 (x_u s)) a b W Ha Hb) as [N T _ _]. split; [|reflexivity].
@@ -143,19 +143,50 @@ Proof.
     cbn [dealts filter is_dealt app]. rewrite repeat_add, T. reflexivity.
 Qed.
 
+(* ------------------------------------------------------------ Order: every sword ticks while it is alive *)
+Lemma order_chunk p a b s : 0 < xp_swi p -> 0 <= a -> 0 <= b ->
+  let '(s1, e1) := order_elapse p a s in let '(s2, e2) := order_elapse p b s1 in
+  let '(s3, e3) := order_elapse p (a + b) s in
+  s2 = s3 /\ dealts (e1 ++ e2) = dealts e3.
+Proof.
+  intros HI Ha Hb. unfold order_elapse.
+  destruct (sw_resolve_add (max_sw p s) (xp_swi p) a b (x_sw s) HI Ha Hb) as [R1 R2].
+  destruct (sw_resolve (max_sw p s) (xp_swi p) a (x_sw s)) as [sw1 n1] eqn:E1. cbn [x_sw x_u setsw setu].
+  change (max_sw p (setsw _ sw1)) with (max_sw p s). cbn [fst snd] in R1, R2.
+  destruct (sw_resolve (max_sw p s) (xp_swi p) b sw1) as [sw2 n2] eqn:E2.
+  destruct (sw_resolve (max_sw p s) (xp_swi p) (a + b) (x_sw s)) as [sw3 n3] eqn:E3. cbn [fst snd] in R1, R2. subst sw3 n3.
+  split.
+  - apply xst_ext; cbn [x_u x_sw x_gauge x_rl x_rlad x_pg setsw setu]; try reflexivity. ust_eq.
+  - rewrite dealts_app, !dealts_elapsed. apply repeat_add.
+Qed.
+
+Lemma chunk_order p a b s s1 e1 s2 e2 s3 e3 :
+  wf_x p s -> 0 <= a -> 0 <= b ->
+  xreduce_spec Order XElapse p a s = Some (s1, e1) -> xreduce_spec Order XElapse p b s1 = Some (s2, e2) ->
+  xreduce_spec Order XElapse p (a + b) s = Some (s3, e3) ->
+  s2 = s3 /\ dealts (e1 ++ e2) = dealts e3.
+Proof.
+  intros (_ & _ & _ & HI) Ha Hb H1 H2 H3. cbn [xreduce_spec xreduce] in H1, H2, H3.
+  assert (E1 : order_elapse p a s = (s1, e1)) by congruence.
+  assert (E2 : order_elapse p b s1 = (s2, e2)) by congruence.
+  assert (E3 : order_elapse p (a + b) s = (s3, e3)) by congruence.
+  pose proof (order_chunk p a b s HI Ha Hb) as X. rewrite E1, E2, E3 in X. exact X.
+Qed.
+
 (* ------------------------------------------------------------ summary *)
 Theorem xelapse_chunk c p a b s s1 e1 s2 e2 s3 e3 :
-  xchunk_proved c = true -> wf_x p s -> 0 <= a -> 0 <= b ->
+  wf_x p s -> 0 <= a -> 0 <= b ->
   xreduce_spec c XElapse p a s = Some (s1, e1) -> xreduce_spec c XElapse p b s1 = Some (s2, e2) ->
   xreduce_spec c XElapse p (a + b) s = Some (s3, e3) ->
   xnorm s2 = xnorm s3 /\ Permutation (dealts (e1 ++ e2)) (dealts e3).
 Proof.
-  intros C W Ha Hb H1 H2 H3.
+  intros W Ha Hb H1 H2 H3.
   destruct (lifted c) as [c'|] eqn:L.
   { apply (chunk_lifted c c' p a b s s1 e1 s2 e2 s3 e3 L W Ha Hb H1 H2 H3). }
   destruct c; try discriminate.
   - destruct (chunk_programmed p a b s s1 e1 s2 e2 s3 e3 W Ha Hb H1 H2 H3) as [-> ->]. split; reflexivity.
   - destruct (chunk_ether p a b s s1 e1 s2 e2 s3 e3 W Ha Hb H1 H2 H3) as [X ->]. split; [exact X|reflexivity].
+  - destruct (chunk_order p a b s s1 e1 s2 e2 s3 e3 W Ha Hb H1 H2 H3) as [-> ->]. split; reflexivity.
   - apply (chunk_ruin p a b s s1 e1 s2 e2 s3 e3 W Ha Hb H1 H2 H3).
   - destruct (chunk_restore p a b s s1 e1 s2 e2 s3 e3 H1 H2 H3) as [-> ->]. split; reflexivity.
   - destruct (chunk_storm p a b s s1 e1 s2 e2 s3 e3 W Ha Hb H1 H2 H3) as [X ->]. split; [exact X|reflexivity].
@@ -168,13 +199,13 @@ Lemma xviews_xnorm c p s :
 Proof. destruct c; repeat split. Qed.
 
 Corollary xelapse_chunk_views c p a b s s1 e1 s2 e2 s3 e3 :
-  xchunk_proved c = true -> wf_x p s -> 0 <= a -> 0 <= b ->
+  wf_x p s -> 0 <= a -> 0 <= b ->
   xreduce_spec c XElapse p a s = Some (s1, e1) -> xreduce_spec c XElapse p b s1 = Some (s2, e2) ->
   xreduce_spec c XElapse p (a + b) s = Some (s3, e3) ->
   xview_validity c p s2 = xview_validity c p s3 /\ xview_running c p s2 = xview_running c p s3 /\
   xview_buff c p s2 = xview_buff c p s3.
 Proof.
-  intros C W Ha Hb H1 H2 H3. destruct (xelapse_chunk c p a b s s1 e1 s2 e2 s3 e3 C W Ha Hb H1 H2 H3) as [U _].
+  intros W Ha Hb H1 H2 H3. destruct (xelapse_chunk c p a b s s1 e1 s2 e2 s3 e3 W Ha Hb H1 H2 H3) as [U _].
   destruct (xviews_xnorm c p s2) as (A1 & A2 & A3). destruct (xviews_xnorm c p s3) as (B1 & B2 & B3).
   rewrite <- A1, <- A2, <- A3, <- B1, <- B2, <- B3, U. repeat split.
 Qed.
@@ -185,7 +216,7 @@ Lemma xelapsed_carries_time c p t s s' es :
 Proof.
   intros H. destruct c; cbn [xreduce_spec xreduce] in H; try discriminate;
     try (destruct (PG.resolving (x_pg s) t) as [g n]);
-    try (destruct (sw_resolve (xp_swi p) t (x_sw s)) as [sw k]);
+    unfold order_elapse in H; try (destruct (sw_resolve (max_sw p s) (xp_swi p) t (x_sw s)) as [sw k]);
     unfold lift, elapse_simple_attack, elapse_buff_trait, elapse_consumable_buff_trait, elapse_periodic_with, storm_tick in H;
     injection H as <- <-; cbn [fst snd];
     change (EElapsed t :: ?l) with ([EElapsed t] ++ l);
@@ -202,17 +233,17 @@ Lemma xwf_preserved c m p t s s' es :
   xreduce_spec c m p t s = Some (s', es) ->
   wf_x p s' /\ u_ic1 (x_u s') = u_ic1 (x_u s) /\ u_ic2 (x_u s') = u_ic2 (x_u s) /\ u_ic3 (x_u s') = u_ic3 (x_u s).
 Proof.
-  intros ((W1 & W2 & W3 & WC & WK) & WG & Hk) (Hprep & I1 & I2 & I3) Ht H.
+  intros ((W1 & W2 & W3 & WC & WK) & WG & Hk & HI) (Hprep & I1 & I2 & I3) Ht H.
   pose proof (resolving_wf (x_pg s) t WG) as WG'.
   destruct c, m; cbn [xreduce_spec xreduce] in H; try discriminate;
     try (destruct (PG.resolving (x_pg s) t) as [g n]; cbn [fst] in WG');
-    try (destruct (sw_resolve (xp_swi p) t (x_sw s)) as [sw k]);
+    unfold order_elapse in H; try (destruct (sw_resolve (max_sw p s) (xp_swi p) t (x_sw s)) as [sw k]);
     unfold lift, use_simple_attack, elapse_simple_attack, use_multiple_damage, use_buff_trait, elapse_buff_trait,
       use_consumable_buff_trait, elapse_consumable_buff_trait, elapse_periodic_with, use_periodic_with_simple,
       use_periodic, use_multiple, ignore_rejected in H;
     repeat match type of H with context [if ?b then _ else _] => destruct b eqn:? end;
     cbn [fst snd] in H; injection H as <- <-;
-    (split; [split; [apply wf_ust_intro|split] | repeat split]); xsimpl; usimpl; try reflexivity; try assumption;
+    (split; [split; [apply wf_ust_intro|split; [|split]] | repeat split]); xsimpl; usimpl; try reflexivity; try assumption;
     try (apply elapse_wf; assumption); try (apply set_time_left_wf; assumption).
   - (* cygnus use *)
     destruct WC as (A & B & C0 & D). unfold C.available, C.wf, C.consume in *. cbn.
